@@ -75,7 +75,7 @@ def run_replay_file(path: str, outdir: str) -> dict:
     p, logf = spawn_worker(["--replay", path, "--out", out, "--budget-s", "120"],
                            int(rp["pythonhashseed"]), out + ".log")
     try:
-        p.wait(timeout=300)
+        p.wait(timeout=3600)
     except subprocess.TimeoutExpired:
         p.kill()
     logf.close()
@@ -220,6 +220,8 @@ def cmd_check(prop: str, tier: str, seed: int, workers: int) -> int:
               "pythonhashseed": v["pythonhashseed"], "run_seed": v["run_seed"], "engine": meta["engine"],
               "profile": v.get("profile"), "choices": v["choices"], "orig_choices_len": v["orig_len"],
               "minimise_execs": v["min_execs"], "log_digest": v["log_digest"], "cfg": v.get("cfg"), "trace": v["trace"]}
+        if v.get("kind") == "batch-order":
+            rp.update(kind="batch-order", batch_runs=v["batch_runs"], batch_seed=v["batch_seed"])
         with open(path, "w") as f:
             json.dump(rp, f, indent=1, default=repr)
         res = run_replay_file(path, outdir)
